@@ -117,7 +117,9 @@ fn svg_text(r: &mut rng::Rng, target: usize) -> String {
     let chars: Vec<char> = s.chars().collect();
     for (i, c) in chars.iter().enumerate() {
         match *c {
-            '\u{c}' | '\u{fffe}' | '\u{ffff}' => out.push(' '),
+            // DEL: the statement does not say whether it is visible text (the extractor prints it, the renderer draws a block for it);
+            // it is kept out of the C14 inputs like the characters XML cannot carry
+            '\u{c}' | '\u{fffe}' | '\u{ffff}' | '\u{7f}' => out.push(' '),
             '\r' => {
                 if chars.get(i + 1) == Some(&'\n') {
                     out.push('\r')
